@@ -153,12 +153,11 @@ def gen_history(rng, pubkind, malformed=False, nops=None, last_terms=False, with
             before = (t.n, t.off)
             t.append(ln, claim=True)
             ops.append(['z'])
-            if (t.n, t.off) != before and t.n == before[0] and t.off <= t.tlen:
+            # commit / abort only right after a claim the tracker saw accepted (a claim left open is never touched later:
+            # its partition may have been cleaned by then)
+            if (t.n, t.off) != before and t.n == before[0] and t.off <= t.tlen and rng.random() < 0.85:
+                ops.append(['m', k, ln] if rng.random() < 0.7 else ['a'])
                 claimed = ln
-            if claimed is not None and rng.random() < 0.85:
-                ops.append(['m', k, claimed] if rng.random() < 0.7 else ['a'])
-                if rng.random() < 0.9:
-                    claimed = None
         elif r < 0.65 and with_bulk and pubkind == 's':
             total = pick_len(rng, t)
             ops.append(['b', k] + split_parts(rng, total, t.mpl))
